@@ -13,6 +13,7 @@ from typing import (
     List,
     Optional,
     Sequence,
+    Set,
     Tuple,
     Type,
     Union,
@@ -722,6 +723,8 @@ class PDFDocument:
         self._parser = None
         self._cached_objs: Dict[int, Tuple[object, int]] = {}
         self._parsed_objs: Dict[int, Tuple[List[object], int]] = {}
+        # ids of the objects whose parsing is in progress
+        self._parsing_objs: Set[int] = set()
         self._parser = parser
         self._parser.set_document(self)
         self.is_printable = self.is_modifiable = self.is_extractable = True
@@ -860,28 +863,35 @@ class PDFDocument:
         log.debug("getobj: objid=%r", objid)
         if objid in self._cached_objs:
             (obj, genno) = self._cached_objs[objid]
+        elif objid in self._parsing_objs:
+            # e.g. a stream whose /Length is a reference to the stream itself
+            raise PDFObjectNotFound(objid)
         else:
-            for xref in self.xrefs:
-                try:
-                    (strmid, index, genno) = xref.get_pos(objid)
-                except KeyError:
-                    continue
-                try:
-                    if strmid is not None:
-                        stream = stream_value(self.getobj(strmid))
-                        obj = self._getobj_objstm(stream, index, objid)
-                    else:
-                        obj = self._getobj_parse(index, objid)
-                        if self.decipher:
-                            obj = decipher_all(self.decipher, objid, genno, obj)
+            self._parsing_objs.add(objid)
+            try:
+                for xref in self.xrefs:
+                    try:
+                        (strmid, index, genno) = xref.get_pos(objid)
+                    except KeyError:
+                        continue
+                    try:
+                        if strmid is not None:
+                            stream = stream_value(self.getobj(strmid))
+                            obj = self._getobj_objstm(stream, index, objid)
+                        else:
+                            obj = self._getobj_parse(index, objid)
+                            if self.decipher:
+                                obj = decipher_all(self.decipher, objid, genno, obj)
 
-                    if isinstance(obj, PDFStream):
-                        obj.set_objid(objid, genno)
-                    break
-                except (PSEOF, PDFSyntaxError):
-                    continue
-            else:
-                raise PDFObjectNotFound(objid)
+                        if isinstance(obj, PDFStream):
+                            obj.set_objid(objid, genno)
+                        break
+                    except (PSEOF, PDFSyntaxError):
+                        continue
+                else:
+                    raise PDFObjectNotFound(objid)
+            finally:
+                self._parsing_objs.discard(objid)
             log.debug("register: objid=%r: %r", objid, obj)
             if self.caching:
                 self._cached_objs[objid] = (obj, genno)
